@@ -84,7 +84,7 @@ type Type struct {
 }
 
 func fixedType(t *Type) *Type {
-	if t.Name != ARRAY && t.Name != MAP {
+	if t == nil || (t.Name != ARRAY && t.Name != MAP) {
 		return t
 	}
 	if t == GENERIC_ARRAY || t == GENERIC_MAP || t == EMPTY_ARRAY || t == EMPTY_MAP {
